@@ -185,6 +185,7 @@ type l2world struct {
 	lastMuts int
 	fltFired, lastFailed bool // storage-fault bookkeeping of the current statement
 	cacheMixed           bool // connections with an odd index get no node cache
+	keyPos   int  // position of the key column in the declared column list (derived from the case header)
 	dead     bool // a Go panic crossed the cgo boundary: SQLite's mutex is held, the process state is unusable
 }
 
@@ -192,6 +193,9 @@ func newL2World(ncols, epn, cache int, native bool) *l2world {
 	px := getProxy()
 	w := &l2world{px: px, bucket: fmt.Sprintf("b%d", nextCounter()), prefix: "pfx", ncols: ncols, epn: epn, cache: cache,
 		conns: map[int]*l2conn{}, curWT: map[int]int64{}, nm: newNamer("#"), in: &tw{}, out: &tw{}, ops: &tw{}, native: native}
+	// the key column is not always declared first: its position is a function of the case header, so
+	// that recorded histories replay with the same declaration
+	w.keyPos = (ncols + epn + cache/64) % (ncols + 1)
 	if err := px.backend.CreateBucket(w.bucket); err != nil {
 		panic(err)
 	}
@@ -214,8 +218,22 @@ func (w *l2world) close() {
 	}
 }
 
+// the key column is declared at position keyPos of the column list (statements name their columns)
 func (w *l2world) colDecl() string {
-	s := "k primary key"
+	var cols []string
+	for i := 0; i < w.ncols; i++ {
+		cols = append(cols, fmt.Sprintf("c%d", i))
+	}
+	p := w.keyPos
+	if p > len(cols) {
+		p = len(cols)
+	}
+	cols = append(cols[:p], append([]string{"k primary key"}, cols[p:]...)...)
+	return strings.Join(cols, ", ")
+}
+
+func (w *l2world) colList() string {
+	s := "k"
 	for i := 0; i < w.ncols; i++ {
 		s += fmt.Sprintf(", c%d", i)
 	}
@@ -598,7 +616,7 @@ func (w *l2world) exec1(op *sop, stats map[string]int) bool {
 			ph += ",?"
 			args = append(args, v.goValue())
 		}
-		r, nat := w.execBoth(c, "insert into @T values ("+ph+")", args...)
+		r, nat := w.execBoth(c, "insert into @T ("+w.colList()+") values ("+ph+")", args...)
 		out.s(";")
 		out.s(r)
 		if w.native {
@@ -677,7 +695,7 @@ func (w *l2world) exec1(op *sop, stats map[string]int) bool {
 			w.writes = append(w.writes, pastWrite{&cp, w.curWT[op.c]})
 		}
 	case "sel", "selnk":
-		q := "select * from @T"
+		q := "select " + w.colList() + " from @T"
 		var args []interface{}
 		nterms := 0
 		if op.kind == "selnk" {
@@ -769,7 +787,7 @@ func (w *l2world) exec1(op *sop, stats map[string]int) bool {
 	case "selo":
 		// ORDER BY a non-key column (ties by key): the cursor delivers key order and must not
 		// tell SQLite that any other order is already satisfied
-		q := fmt.Sprintf("select * from @T order by c%d", op.col)
+		q := fmt.Sprintf("select "+w.colList()+" from @T order by c%d", op.col)
 		if op.desc {
 			q += " desc"
 		}
@@ -884,7 +902,7 @@ func (w *l2world) exec1(op *sop, stats map[string]int) bool {
 			var qerr error
 			go func() {
 				defer close(done)
-				rows, err := c.db.Query("select * from " + ch)
+				rows, err := c.db.Query("select " + w.colList() + " from " + ch)
 				if err == nil {
 					got, err = scanRows(rows)
 				}
@@ -967,7 +985,7 @@ func (w *l2world) exec1(op *sop, stats map[string]int) bool {
 		// read-only connection, and a reachability walk of the bucket
 		selAll := func(db *sql.DB, table string) (string, bool) {
 			var t tw
-			rows, err := db.Query("select * from " + table + " order by k")
+			rows, err := db.Query("select " + w.colList() + " from " + table + " order by k")
 			var got [][]sval
 			if err == nil {
 				got, err = scanRows(rows)
@@ -1110,6 +1128,9 @@ var keyPoolAll = []sval{
 func twin(v sval) sval {
 	switch v.tag {
 	case 'I':
+		if v.i > 1<<53 || v.i < -(1<<53) {
+			return v // (beyond 2^53 the REAL spelling is another number, and finding F-C07-1 applies)
+		}
 		return sval{tag: 'R', bits: math.Float64bits(float64(v.i))}
 	case 'R':
 		f := math.Float64frombits(v.bits)
@@ -1175,6 +1196,15 @@ func runL2History(g *gen, prof l2profile, nops int, stats map[string]int) (strin
 		} else {
 			keys = append(keys, sval{tag: 'I', i: int64(g.r.Intn(12))})
 		}
+	}
+	if prof.allClasses && g.r.Intn(8) == 0 {
+		// "any 64-bit integer": neighbouring integers beyond 2^53 are different keys
+		base := []int64{1 << 53, 1 << 60, math.MaxInt64 - 3, -(1 << 53) - 4, 1700000000000000000}[g.r.Intn(5)]
+		keys = nil
+		for i := int64(0); i < 4; i++ {
+			keys = append(keys, sval{tag: 'I', i: base + i})
+		}
+		stats["keys_neighbouring_large_integers"]++
 	}
 	key := func() sval { return keys[g.r.Intn(len(keys))] }
 	clock := l2BaseSec
@@ -1409,6 +1439,56 @@ func runL2History(g *gen, prof l2profile, nops int, stats map[string]int) (strin
 		do(&sop{kind: "rdconn", c: 0})
 		do(&sop{kind: "sel", c: 0})
 		stats["script_deadline_inside_auto_tx"]++
+	}
+	if prof.changes && !prof.roReader && !prof.vacuum && nconn >= 2 && g.r.Intn(2) == 0 {
+		// version lists with SEVERAL members that share one: two writers that never merge each other,
+		// and a read-only reader that records what it sees before and after one of them moves on.
+		// The shared member holds the newest cells of a row the other member deletes: what the two
+		// lists show is decided by merging ALL their members.
+		rc := nconn + 1
+		do(&sop{kind: "conn", c: rc})
+		do(&sop{kind: "create", c: rc, ro: true})
+		do(&sop{kind: "wt", c: 0, t: l2BaseSec + 100})
+		do(&sop{kind: "ins", c: 0, key: sval{tag: 'I', i: 880}, vals: ivals(1)})
+		do(&sop{kind: "refresh", c: 1})
+		do(&sop{kind: "wt", c: 0, t: l2BaseSec + 110})
+		do(&sop{kind: "upd", c: 0, key: sval{tag: 'I', i: 880}, vals: ivals(2), mask: fullm})
+		do(&sop{kind: "wt", c: 1, t: l2BaseSec + 120})
+		do(&sop{kind: "ins", c: 1, key: sval{tag: 'I', i: 881}, vals: ivals(3)})
+		do(&sop{kind: "refresh", c: rc})
+		do(&sop{kind: "version", c: rc})
+		if len(w.versions) > 0 {
+			old := w.versions[len(w.versions)-1]
+			do(&sop{kind: "wt", c: 1, t: l2BaseSec + 130})
+			do(&sop{kind: "del", c: 1, key: sval{tag: 'I', i: 880}})
+			do(&sop{kind: "refresh", c: rc})
+			do(&sop{kind: "version", c: rc})
+			cur := w.versions[len(w.versions)-1]
+			do(&sop{kind: "changes", c: rc, from: cur, to: old})
+			do(&sop{kind: "changes", c: rc, from: old, to: cur})
+			do(&sop{kind: "changes", c: 0, from: cur, to: old})
+			if len(old) >= 2 && len(cur) >= 2 {
+				stats["script_changes_shared_member"]++
+			}
+		}
+	}
+	if prof.native && epn == 0 && g.r.Intn(3) == 0 {
+		// descending scans with a LIMIT whose upper bound lies BETWEEN stored keys (the cursor starts
+		// above the bound; SQLite drops that row, it must not count against the limit), next to a
+		// deleted key whose marker is still in the tree
+		for k := int64(10); k <= 90; k += 10 {
+			do(&sop{kind: "wt", c: 0, t: nextT()})
+			do(&sop{kind: "ins", c: 0, key: sval{tag: 'I', i: 1000 + k}, vals: ivals(k)})
+		}
+		do(&sop{kind: "wt", c: 0, t: nextT()})
+		do(&sop{kind: "del", c: 0, key: sval{tag: 'I', i: 1060}})
+		iv := func(x int64) sval { return sval{tag: 'I', i: 1000 + x} }
+		do(&sop{kind: "sel", c: 0, desc: true, limit: 1, cons: []scon{{op: "le", v: iv(45)}}})
+		do(&sop{kind: "sel", c: 0, desc: true, limit: 3, cons: []scon{{op: "ge", v: iv(15)}, {op: "le", v: iv(75)}}})
+		do(&sop{kind: "sel", c: 0, desc: true, limit: 2, cons: []scon{{op: "lt", v: iv(85)}}})
+		do(&sop{kind: "sel", c: 0, desc: true, limit: 2, cons: []scon{{op: "lt", v: iv(65)}}})
+		do(&sop{kind: "sel", c: 0, desc: false, limit: 2, cons: []scon{{op: "gt", v: iv(55)}}})
+		stats["script_desc_limit_between_keys"]++
 	}
 	for step := 0; step < nops; step++ {
 		c := g.r.Intn(nconn)
@@ -1761,6 +1841,10 @@ func runL2T(seed int64, n int, dir string) error {
 			total["hist_threaded"]++
 		}
 	}
+	id++
+	fmt.Fprintf(cw, "%d probe refused-create-leaves-the-other-connections-table\n", id)
+	fmt.Fprintf(iw, "%d %s\n", id, probeRefusedCreateLeavesOtherTable())
+	total["probe_refused_create"]++
 	for k := 0; k < 2; k++ {
 		id++
 		fmt.Fprintf(cw, "%d probe stalled-endpoint\n", id)
@@ -1798,8 +1882,11 @@ func runL2(seed int64, n int, dir string, profName string) error {
 			fmt.Fprintf(cf, "%d probe deadline-bounds-a-statement-stalled-on-%s\n", i+1, cl)
 			fmt.Fprintf(jf, "%d %s\n", i+1, probeDeadline(cl))
 		}
+		fmt.Fprintf(cf, "%d probe scan-with-one-failing-read-fails-or-is-complete\n", len(deadlineClasses)+1)
+		fmt.Fprintf(jf, "%d %s\n", len(deadlineClasses)+1, probeScanUnderReadFault())
 		sf, _ := os.Create(dir + "/stats.txt")
 		defer sf.Close()
+		fmt.Fprintf(sf, "probe_scan_under_read_fault 1\n")
 		fmt.Fprintf(sf, "probe_deadline %d\n", len(deadlineClasses))
 		ef, _ := os.Create(dir + "/errors.txt")
 		ef.Close()
@@ -1843,6 +1930,11 @@ func runL2(seed int64, n int, dir string, profName string) error {
 		fmt.Fprintf(cw, "%d sqlhist%s\n", c, in)
 		fmt.Fprintf(iw, "%d%s\n", c, out)
 		stats["hist_"+profName]++
+	}
+	if profName == "ro" {
+		fmt.Fprintf(cw, "%d probe every-spelling-of-readonly-never-writes\n", n+1)
+		fmt.Fprintf(iw, "%d %s\n", n+1, probeReadonlySpellings())
+		stats["probe_readonly_spellings"]++
 	}
 	if profName == "single" {
 		fmt.Fprintf(cw, "%d probe invalid-utf8-text-is-refused\n", n+1)
